@@ -50,9 +50,11 @@ CONSTANTS MaxFiles,     \* number of source files on the command line: 1..MaxFil
           PhasesUsed    \* the phases TLC may start (all of them, or a few for the property-level layer,
                         \* where phases may be skipped and the full alphabet would give 2^19 orders)
 
-Kinds     == {"ai", "ap", "asy", "ao", "fm", "lsp", "c", "java", "main"}
+\* "h": the common header <unit>.h of a C output that is split into several files (-Csmax); it is due -- a member of
+\* `requested' -- whenever "c" is asked for and the unit is split, is opened before the first C file and closed after the last
+Kinds     == {"ai", "ap", "asy", "ao", "fm", "lsp", "c", "java", "main", "h"}
 FileKinds == Kinds \ {"main"}                      \* written once per source file
-CodeKinds == {"asy", "ao", "fm", "lsp", "c", "java", "main"}   \* need an error-free front end
+CodeKinds == {"asy", "ao", "fm", "lsp", "c", "java", "main", "h"}   \* need an error-free front end
 OutStates == {"absent", "open", "complete", "partial", "removed"}
 IoModes   == {"ok", "failOpen", "failWrite", "failClose"}
 MsgKinds  == {"remark", "warning", "error", "fatal"}
@@ -75,7 +77,7 @@ PhaseOf(k) == CASE k = "ai"                     -> "include"
                 [] k \in {"asy", "ao", "fm"}    -> "putao"
                 [] k = "lsp"                    -> "putlisp"
                 [] k = "java"                   -> "putjava"
-                [] k \in {"c", "main"}          -> "putc"
+                [] k \in {"c", "main", "h"}     -> "putc"
 
 \* positions after which compFileFront tests comsgErrorCount()
 Checkpoints == {2, 6, 8, 10, 11, 12}
